@@ -39,6 +39,7 @@ import (
 	"strconv"
 	"strings"
 	"testing"
+	"testing/synctest"
 	"time"
 	"unicode/utf8"
 
@@ -111,6 +112,30 @@ type c14Case struct {
 	Batch     int    `json:"batch"`
 	PromptLen int    `json:"prompt_len"`
 	Keep      int    `json:"keep"`
+
+	// slow client: the script is Body x Repeat followed by Pieces (hundreds of cheap pieces), and the
+	// client stops reading after StallAfter chunks until the runner has nothing left it can do
+	// (blocked on the full response buffer, or done); then it reads everything that is sent.
+	Body       []c14B `json:"body,omitempty"`
+	Repeat     int    `json:"repeat,omitempty"`
+	Slow       bool   `json:"slow,omitempty"`
+	StallAfter int    `json:"stall_after,omitempty"`
+}
+
+// c14SlowWriter is the response writer of a client that stops reading for a while: from the
+// StallAfter-th chunk on, Write blocks (as it does on a full TCP send buffer) until the gate opens.
+type c14SlowWriter struct {
+	*httptest.ResponseRecorder
+	writes, stallAfter int
+	gate               chan struct{}
+}
+
+func (w *c14SlowWriter) Write(b []byte) (int, error) {
+	if w.writes >= w.stallAfter {
+		<-w.gate
+	}
+	w.writes++
+	return w.ResponseRecorder.Write(b)
 }
 
 type c14Info struct {
@@ -173,7 +198,12 @@ func c14ValidPrefixLen(s string) int {
 const c14Filler = "~#~" // piece of the token the model predicts if it is asked for more than the script
 
 // c14Serve runs one completion request through the real handler and run loop.
-func c14Serve(c c14Case, pieces []string, stops []string) (lines []c14Line, status int, slotTokens []int32, shifts int, err error) {
+//
+// With c.Slow it must be called inside a testing/synctest bubble: synctest.Wait() is then the exact
+// "nothing can move any more" signal (run loop blocked on the full response buffer or idle, handler
+// blocked in Write) at which the stalled client starts reading again — no sleep, no wall clock; the
+// 60 s watchdogs below run on the bubble's virtual clock there, i.e. they fire exactly on a deadlock.
+func c14Serve(c c14Case, pieces []string, stops []string, blockedAtRelease *bool) (lines []c14Line, status int, slotTokens []int32, shifts int, err error) {
 	n := len(pieces)
 	table := make([]string, n+3) // 0: prompt token, 1..n: script, n+1: EOS, n+2: filler
 	table[0] = "P"
@@ -218,12 +248,23 @@ func c14Serve(c c14Case, pieces []string, stops []string) (lines []c14Line, stat
 		return nil, 0, nil, 0, fmt.Errorf("harness: %v", err)
 	}
 	rr := httptest.NewRecorder()
+	var w http.ResponseWriter = rr
+	var slow *c14SlowWriter
+	if c.Slow {
+		slow = &c14SlowWriter{ResponseRecorder: rr, stallAfter: c.StallAfter, gate: make(chan struct{})}
+		w = slow
+	}
 	req := httptest.NewRequest(http.MethodPost, "/completion", bytes.NewReader(body))
 	handlerDone := make(chan any, 1)
 	go func() {
 		defer func() { handlerDone <- recover() }()
-		s.completion(rr, req)
+		s.completion(w, req)
 	}()
+	if slow != nil {
+		synctest.Wait() // every goroutine of the bubble is durably blocked (or gone)
+		*blockedAtRelease = s.seqs[0] != nil
+		close(slow.gate)
+	}
 	select {
 	case p := <-handlerDone:
 		if p != nil {
@@ -280,7 +321,7 @@ func c14Serve(c c14Case, pieces []string, stops []string) (lines []c14Line, stat
 	return lines, status, slotTokens, sim.spy.shiftsOK, nil
 }
 
-func c14Run(c c14Case, known func(string) bool) (info c14Info, err error) {
+func c14Run(t *testing.T, c c14Case, known func(string) bool) (info c14Info, err error) {
 	cls := map[string]bool{}
 	defer func() {
 		for k := range cls {
@@ -294,10 +335,18 @@ func c14Run(c c14Case, known func(string) bool) (info c14Info, err error) {
 	c.Batch = max(c.Batch, 1)
 	c.PromptLen = min(max(c.PromptLen, 1), c.NumCtx)
 	c.Keep = min(max(c.Keep, 0), c.NumCtx)
-	pieces := make([]string, len(c.Pieces))
-	for i, p := range c.Pieces {
-		pieces[i] = string(p)
+	var pieces []string
+	if len(c.Body) > 0 {
+		for r := 0; r < min(max(c.Repeat, 0), 400); r++ {
+			for _, p := range c.Body {
+				pieces = append(pieces, string(p))
+			}
+		}
 	}
+	for _, p := range c.Pieces {
+		pieces = append(pieces, string(p))
+	}
+	c.StallAfter = max(c.StallAfter, 0)
 	var stops []string
 	for _, s := range c.Stops {
 		if !utf8.ValidString(string(s)) {
@@ -421,7 +470,23 @@ func c14Run(c c14Case, known func(string) bool) (info c14Info, err error) {
 		}
 	}
 
-	lines, status, slotTokens, shifts, err := c14Serve(c, pieces, stops)
+	var lines []c14Line
+	var status, shifts int
+	var slotTokens []int32
+	if c.Slow {
+		cls["slow_client"] = true
+		blocked := false
+		synctest.Test(t, func(*testing.T) {
+			lines, status, slotTokens, shifts, err = c14Serve(c, pieces, stops, &blocked)
+		})
+		if blocked {
+			cls["slow_client_runner_blocked_on_full_buffer"] = true
+		} else if err == nil && len(lines) > c.StallAfter {
+			cls["slow_client_generation_ended_during_stall"] = true
+		}
+	} else {
+		lines, status, slotTokens, shifts, err = c14Serve(c, pieces, stops, nil)
+	}
 	if err != nil {
 		return info, err
 	}
@@ -465,6 +530,12 @@ func c14Run(c c14Case, known func(string) bool) (info c14Info, err error) {
 	}
 	gotReason := llm.DoneReason(final.DoneReason).String()
 	what := fmt.Sprintf("pieces %q, stops %q, num_predict %d, eos %v", pieces, stops, c.Predict, c.EOS)
+	if len(pieces) > 24 {
+		what = fmt.Sprintf("%d pieces (%q x %d, then %q), stops %q, num_predict %d, eos %v", len(pieces), c.Body, c.Repeat, c.Pieces, stops, c.Predict, c.EOS)
+	}
+	if c.Slow {
+		what += fmt.Sprintf(", client stalls after %d chunks until the runner cannot go on, then reads everything", c.StallAfter)
+	}
 
 	if hasEmptyStop && k > 0 {
 		// "" occurs in any text: generation ends with the first token and nothing is returned
@@ -641,7 +712,26 @@ func c14Gen(t *rapid.T) c14Case {
 		c.Stops = append(c.Stops, c14B(st))
 	}
 	c.EOS = rapid.IntRange(0, 3).Draw(t, "eos") > 0
+	total := len(c.Pieces)
+	if rapid.IntRange(0, 23).Draw(t, "slow_client") == 0 {
+		// a long, cheap script in front of the short one, and a client that falls behind
+		c.Slow = true
+		body := strings.Join(rapid.SliceOfN(rapid.SampledFrom([]string{"x", "y", "z", "xy", "é", "日", " "}), 1, 3).Draw(t, "body_atoms"), "")
+		at := rapid.IntRange(0, len(body)).Draw(t, "body_cut")
+		for _, p := range []string{body[:at], body[at:]} {
+			if p != "" {
+				c.Body = append(c.Body, c14B(p))
+			}
+		}
+		c.Repeat = rapid.IntRange(100, 400).Draw(t, "body_pieces") / len(c.Body)
+		total += c.Repeat * len(c.Body)
+		c.StallAfter = rapid.OneOf(rapid.Just(0), rapid.IntRange(0, 40), rapid.IntRange(0, total)).Draw(t, "stall_after")
+	}
 	c.Predict = rapid.OneOf(rapid.SampledFrom([]int{-1, -1, 0}), rapid.IntRange(1, len(c.Pieces)+2)).Draw(t, "predict")
+	if c.Slow && c.Predict > 0 {
+		c.Predict += total - len(c.Pieces) - rapid.SampledFrom([]int{0, 0, 1, 50}).Draw(t, "limit_inside_body")
+		c.Predict = max(c.Predict, 1)
+	}
 	c.NumCtx = rapid.SampledFrom([]int{4, 6, 8, 16, 64, 2048}).Draw(t, "num_ctx")
 	c.Batch = rapid.SampledFrom([]int{1, 2, 8, 512}).Draw(t, "batch")
 	c.PromptLen = rapid.IntRange(1, 4).Draw(t, "prompt_len")
@@ -661,7 +751,7 @@ func TestC14Stream(t *testing.T) {
 			t.Fatalf("replay: %v", err)
 		}
 		// replays run the strict oracle: the replay of a known finding must fail while the defect exists
-		info, err := c14Run(rc, func(string) bool { return false })
+		info, err := c14Run(t, rc, func(string) bool { return false })
 		t.Logf("replay: %s %v", info.summary, info.classes)
 		if err != nil {
 			if slug, isKnown := strings.CutPrefix(rp.Expect, "known:"); isKnown && (slug == c14KnownListOrder || slug == c14KnownNegTrim) && slices.Contains(info.classes, "class_"+slug) {
@@ -681,7 +771,7 @@ func TestC14Stream(t *testing.T) {
 			return
 		}
 		c := c14Gen(rt)
-		info, err := c14Run(c, rec.Known)
+		info, err := c14Run(t, c, rec.Known)
 		if info.excluded {
 			rec.Excluded(c14KnownListOrder)
 		}
